@@ -544,11 +544,11 @@ Proof. unfold tls_setup. intro H. injection H as <-. reflexivity. Qed.
 (* ------------------------------------------------------------------ strict SNI = Host *)
 Lemma strict_sni_host sites sni rhost i s :
   serve sites (Some sni) rhost = Served i -> nth_error sites i = Some s -> demands (s_tls s) = true ->
-  to_lower sni = to_lower (req_hostname rhost).
+  to_lower sni = route_host rhost.
 Proof.
   unfold serve. destruct (vmatch (vhosts sites) (route_host rhost)) as [[k j]|]; [|discriminate].
   destruct (nth_error sites j) as [s'|] eqn:Ej; [|discriminate].
-  destruct (strict_fail (s_tls s') (Some sni) (req_hostname rhost)) eqn:Es; [discriminate|].
+  destruct (strict_fail (s_tls s') (Some sni) (route_host rhost)) eqn:Es; [discriminate|].
   intro H. injection H as <-. intros Hn Hd. rewrite Ej in Hn. injection Hn as <-.
   unfold strict_fail in Es. rewrite Hd in Es. simpl in Es.
   apply negb_false_iff in Es. apply beq_eq in Es. exact Es.
@@ -557,11 +557,11 @@ Qed.
 Lemma forbidden_only_on_mismatch sites tls rhost i :
   serve sites tls rhost = Forbidden i ->
   exists sni s, tls = Some sni /\ nth_error sites i = Some s /\ demands (s_tls s) = true /\
-                to_lower sni <> to_lower (req_hostname rhost).
+                to_lower sni <> route_host rhost.
 Proof.
   unfold serve. destruct (vmatch (vhosts sites) (route_host rhost)) as [[k j]|]; [|discriminate].
   destruct (nth_error sites j) as [s'|] eqn:Ej; [|discriminate].
-  destruct (strict_fail (s_tls s') tls (req_hostname rhost)) eqn:Es; [|discriminate].
+  destruct (strict_fail (s_tls s') tls (route_host rhost)) eqn:Es; [|discriminate].
   intro H. injection H as <-. unfold strict_fail in Es. destruct tls as [sni|]; [|discriminate].
   apply andb_true_iff in Es as [Hd Hn]. exists sni, s'. repeat split; try assumption.
   apply negb_true_iff in Hn. apply beq_false_neq. exact Hn.
@@ -746,10 +746,9 @@ Theorem clientauth_policy_governs dc bad sites g dflt conn sni rhost v s :
   mget (bs "*"%string) (vhosts sites) = None ->
   serve sites (Some sni) rhost = Served v -> nth_error sites v = Some s -> demands (s_tls s) = true ->
   trim_space sni = sni -> sni <> [] ->
-  route_host rhost = to_lower (req_hostname rhost) ->
   exists k i c ob, get_config g dflt conn sni = Found k (i, c, ob) /\ build dc bad (s_tls s) = Some ob.
 Proof.
-  intros Hmk Hsites Hf1 Hf2 Hstar Hserve Hnth Hdem Htrim Hne Hroute.
+  intros Hmk Hsites Hf1 Hf2 Hstar Hserve Hnth Hdem Htrim Hne.
   pose proof (strict_sni_host _ _ _ _ _ Hserve Hnth Hdem) as Hsni.
   set (h := to_lower sni).
   assert (Hname : effective_name dflt sni = h).
@@ -758,10 +757,10 @@ Proof.
     destruct h; [reflexivity|discriminate]. }
   assert (Hhne : h <> []) by (apply to_lower_nonempty; exact Hne).
   (* the routed site and its key *)
-  unfold serve in Hserve. rewrite Hroute, <- Hsni in Hserve. fold h in Hserve.
+  unfold serve in Hserve. rewrite <- Hsni in Hserve. fold h in Hserve.
   destruct (vmatch (vhosts sites) h) as [[kk j]|] eqn:Ev; [|discriminate].
   destruct (nth_error sites j) as [s'|] eqn:Ej; [|discriminate].
-  destruct (strict_fail (s_tls s') (Some sni) (req_hostname rhost)); [discriminate|].
+  destruct (strict_fail (s_tls s') (Some sni) h); [discriminate|].
   injection Hserve as ->. rewrite Hnth in Ej. injection Ej as <-.
   (* kk is the first present key among h :: wild_cands h ++ [""] *)
   assert (Hfk : find_key (vhosts sites) (h :: wild_cands h ++ [[]]) = Some (kk, v)).
